@@ -21,7 +21,8 @@ RULE = ("topo: every digraph on <=3 (quick) / <=4 (thorough) labelled nodes incl
         "drawn from those digraphs, the same with every edge doubled and tripled, random multigraphs with duplicate edges, and long chains / ladders; "
         "resolver-history: every history of add_node / add_dependency / resolve_build_order of length <=5 (thorough 6) on one resolver over two nodes sharing a name, <=3 (4) over three, "
         "plus random histories over up to 9 nodes whose (name, path, kind) identities collide on the name; graph-history: every history of add_dependency / add_dependencies / "
-        "topological_sort_types of length <=3 (4) over two names plus random ones over up to 9 names. A case is non-trivial when it has at least "
+        "topological_sort_types of length <=3 (4) over two names plus random ones over up to 9 names, interleaved with add_resolved_type (is_enum true / false) and add_type_definition; "
+        "node paths are drawn from spellings of the same file (backslashes, ./ prefix, doubled slash, case, empty). A case is non-trivial when it has at least "
         "one edge; distinct = distinct (graph, request) pairs")
 TRUSTED = ["Spec/P20.v boolean checkers are the run-time oracle applied to the implementation's answers; proved equivalent to the Prop statements (C20_topo_oracle_exact, C20_kahn_oracle_exact)"]
 ASSUMPTIONS = ["HashSet iteration order of an unmodified set is stable between two traversals (used to feed the observed order to the model)", "the implementation iterates each set either in its hash order or in sorted name order; any other deterministic order would show as a correspondence break (no-failing-input-found), not as a property violation"]
@@ -210,25 +211,32 @@ def hist_cases(tier, rng):
     cases = []
     clash2 = [[0, 0, 1], [0, 1, 1]]                      # same name, two files
     clash3 = [[0, 0, 1], [0, 1, 1], [0, 0, 4]]           # ... and a module of the same name
+    slash2 = [[0, 0, 1], [0, 3, 1]]                      # one file spelled src/p0.rs and src\p0.rs
     def alphabet(n):
         return [["n", i] for i in range(n)] + [["d", a, b] for a in range(n) for b in range(n)] + [["r"]]
-    for idents, maxlen in ((clash2, 5 if tier == "quick" else 6), (clash3, 3 if tier == "quick" else 4)):
+    for idents, maxlen in ((clash2, 5 if tier == "quick" else 6), (clash3, 3 if tier == "quick" else 4),
+                           (slash2, 4 if tier == "quick" else 5)):
         al = alphabet(len(idents))
         for L in range(1, maxlen + 1):
             for ops in itertools.product(al, repeat=L):
                 if ops[-1] != ["r"]:
                     continue
                 cases.append({"idents": idents, "ops": [list(o) for o in ops]})
-    # every small-scope graph, built completely then resolved, with all nodes sharing one name
+    # every small-scope graph, built completely then resolved, with all nodes sharing one name, and with
+    # nodes that differ only in how their path is spelled
+    spell3 = [[0, 0, 1], [0, 3, 1], [0, 4, 1]]
+    user3 = [[1, 8, 1], [2, 9, 1], [3, 9, 2]]
     for edges in all_graphs(3):
-        cases.append({"idents": clash3, "ops": [["n", i] for i in range(3)] + [["d", a, b] for a, b in edges] + [["r"]]})
+        for idents in (clash3, spell3, user3):
+            cases.append({"idents": idents, "ops": [["n", i] for i in range(3)] + [["d", a, b] for a, b in edges] + [["r"]]})
+            cases.append({"idents": idents, "ops": [["d", a, b] for a, b in edges] + [["r"]]})
     nrand = 3000 if tier == "quick" else 60000
     for _ in range(nrand):
         n = rng.randint(2, 9)
         names = rng.choice([1, 2, 3, n])
         idents = []
         while len(idents) < n:
-            t = [rng.randrange(names), rng.randrange(3), rng.randrange(5)]
+            t = [rng.randrange(names), rng.randrange(10), rng.randrange(5)]
             if t not in idents:
                 idents.append(t)
         acyclic = rng.random() < 0.6
@@ -292,7 +300,8 @@ def ghist_cases(tier, rng):
     cases = []
     ns = [10, 11]
     subsets = [[], [10], [11], [10, 11]]
-    al = [["d", a, b] for a in ns for b in ns] + [["ds", a, s] for a in ns for s in subsets] + [["s", s] for s in subsets[1:]]
+    al = ([["d", a, b] for a in ns for b in ns] + [["ds", a, s] for a in ns for s in subsets] + [["s", s] for s in subsets[1:]]
+          + [["rt", a, e] for a in ns for e in (True, False)] + [["td", a] for a in ns])
     for L in range(1, (3 if tier == "quick" else 4) + 1):
         for ops in itertools.product(al, repeat=L):
             if ops[-1][0] != "s":
@@ -307,8 +316,11 @@ def ghist_cases(tier, rng):
             x = rng.random()
             if x < 0.5:
                 ops.append(["d", rng.choice(pool), rng.choice(pool)])
-            elif x < 0.65:
+            elif x < 0.62:
                 ops.append(["ds", rng.choice(pool), sorted(set(rng.choice(pool) for _ in range(rng.randint(0, 3))))])
+            elif x < 0.72:
+                # annotations of the other maps of the struct (resolved StructInfo, definition path)
+                ops.append(rng.choice([["rt", rng.choice(pool), rng.random() < 0.6], ["td", rng.choice(pool)]]))
             else:
                 ops.append(["s", sorted(set(rng.choice(pool) for _ in range(rng.randint(1, 3))))])
                 if rng.random() < 0.4:                      # the same request again after one more edge
@@ -345,7 +357,7 @@ def eval_ghist(cases):
         corr = model == o["outs"]
         ok = m[1] == "true"
         res.append(Outcome(case, corr, ok, detail={"impl": o["outs"], "model": model, "oracle_ok": ok},
-                           nontrivial=any(x[0] != "s" for x in c["ops"])))
+                           nontrivial=any(x[0] in ("d", "ds") for x in c["ops"])))
     return res
 
 
